@@ -13,7 +13,7 @@ use serde_json::{json, Value};
 use std::io::Write;
 
 fn registry() -> Vec<&'static dyn Check> {
-    vec![&checks_l::C02, &checks_l::C03, &checks_l::C05, &checks_l::C04, &rig_c::C20, &checks_n::C01, &checks_n::C07, &checks_n::C06]
+    vec![&checks_l::C02, &checks_l::C03, &checks_l::C05, &checks_l::C04, &rig_c::C20, &checks_n::C01, &checks_n::C07, &checks_n::C06, &checks_n::C08]
 }
 
 fn find(id: &str) -> &'static dyn Check {
@@ -37,6 +37,9 @@ fn main() {
         std::process::exit(2);
     }
     install_panic_hook();
+    if std::env::var("RNSIM_TRACE").is_ok() {
+        tokio::sim::TRACE.store(true, std::sync::atomic::Ordering::Relaxed);
+    }
     if std::env::var("RNSIM_LOG").is_ok() {
         env_logger::init();
     }
